@@ -181,9 +181,7 @@ func Parse(d []byte) (p Pkt, err error) {
 		}
 		p.QoS, p.Retain, p.Topic = int(body[0]>>5)&3, body[0]&0x10 != 0, string(body[1:])
 	case WILLMSG, WILLMSGUPD:
-		if err = need(n >= 1); err != nil {
-			return
-		}
+		// an empty will message is legal (Codec.tla agrees)
 		p.Data = body
 	case REGISTER:
 		if err = need(n >= 5); err != nil {
